@@ -2,6 +2,9 @@
 
 Name/Attribute/Call(+Starred, **)/FunctionDef/Lambda/Nonlocal get their own constructors; every other node type
 is `O` with its AST-valued fields in ast.iter_fields order (what ast.NodeVisitor.generic_visit traverses).
+Binding forms that are not assignments to an ast.Name (`except E as n`, `import m as n`, `case n` / `case [*n]` /
+`case {**n}`, `class n`, a nested `async def n`) are given to the model as what the real visitor makes of them
+since repair D81: a store of that name (a synthetic `N n s` node) ahead of the node's own children.
 The ROOT is serialised as a function definition when it is a (Async)FunctionDef (CallListerVisitor.__init__ reads
 .args and .body of whatever it is given); a *nested* async def is an `O` node, like any node without a handler."""
 import ast
@@ -14,7 +17,7 @@ def nid(name):
     return str(core.NAMES.id(name))
 
 
-def ser(node, out, root=False):
+def ser(node, out, root=False, nowrap=False):
     if isinstance(node, ast.Name):
         out += ['N', nid(node.id), CTX[type(node.ctx)]]
     elif isinstance(node, ast.Attribute):
@@ -56,12 +59,24 @@ def ser(node, out, root=False):
         out += ['G', str(len(node.names))] + [nid(n) for n in node.names]
     else:
         ch = []
-        for f, v in ast.iter_fields(node):
-            if isinstance(v, list):
-                ch += [it for it in v if isinstance(it, ast.AST)]
-            elif isinstance(v, ast.AST):
-                ch.append(v)
-        out += ['O', str(len(ch))]
+        bound = None
+        if isinstance(node, (ast.ExceptHandler, ast.MatchAs, ast.ClassDef, ast.AsyncFunctionDef)):
+            bound = node.name
+        elif isinstance(node, ast.alias):
+            bound = node.asname or node.name.split('.')[0]
+        elif isinstance(node, ast.MatchStar):
+            bound = node.name
+        elif isinstance(node, ast.MatchMapping):
+            bound = node.rest
+        if not isinstance(node, (ast.alias, ast.MatchStar)):
+            for f, v in ast.iter_fields(node):
+                if isinstance(v, list):
+                    ch += [it for it in v if isinstance(it, ast.AST)]
+                elif isinstance(v, ast.AST):
+                    ch.append(v)
+        out += ['O', str(len(ch) + (1 if bound else 0))]
+        if bound:
+            out += ['N', nid(bound), 's']
         for c in ch:
             ser(c, out)
     return out
